@@ -68,6 +68,27 @@ def main(tier):
             except ValueError:
                 continue
             anns.append((f"{d2}[{d1}[ndarray,'{s1}'],'{s2}']", d1, d2, s1, s2, ann))
+        # user-defined categories importable by name (harness.user_cats), flat, under / over Shaped and nested in themselves
+        from . import user_cats
+        for u in sorted(user_cats.SPECS):
+            UC = getattr(user_cats, u)
+            for s in (dims if tier == "thorough" else rng.sample(dims, 2)):
+                anns.append((f"{u}[ndarray,'{s}']", "U:" + u, "U:" + u, s, "", UC[np.ndarray, s]))
+            s1, s2 = rng.choice(dims), rng.choice(["a", "", "_ 3", "b a"])
+            anns.append((f"Shaped[{u}[ndarray,'{s1}'],'{s2}']", "U:" + u, "Shaped", s1, s2, jaxtyping.Shaped[UC[np.ndarray, s1], s2]))
+            anns.append((f"{u}[Shaped[ndarray,'{s1}'],'{s2}']", "Shaped", "U:" + u, s1, s2, UC[jaxtyping.Shaped[np.ndarray, s1], s2]))
+            anns.append((f"{u}[{u}[ndarray,'{s1}'],'{s2}']", "U:" + u, "U:" + u, s1, s2, UC[UC[np.ndarray, s1], s2]))
+            anns.append((f"Shaped[Shaped[{u}[ndarray,'a'],'b'],'']", "U:" + u, "Shaped", "b a", "",
+                         jaxtyping.Shaped[jaxtyping.Shaped[UC[np.ndarray, "a"], "b"], ""]))
+
+        def rowcats(d1, d2):
+            out = {}
+            for k, u, d in (("d1", "u1", d1), ("d2", "u2", d2)):
+                if d.startswith("U:"):
+                    out[k], out[u] = "User", user_cats.tla_spec(d[2:])
+                else:
+                    out[k] = d
+            return out
         routes = {"pickle2": lambda a: pickle.loads(pickle.dumps(a, 2)), "pickle5": lambda a: pickle.loads(pickle.dumps(a, 5)),
                   "cloudpickle": lambda a: cloudpickle.loads(cloudpickle.dumps(a)), "copy": copy.copy, "deepcopy": copy.deepcopy}
         def load_after_use(a):
@@ -96,7 +117,7 @@ def main(tier):
                 except BaseException as e:  # noqa
                     v = ["route:" + type(e).__name__]
                 after = vector(ann)
-                rows.append({"id": rid, "kind": "nest", "d1": d1, "d2": d2, "s1": c15.DIMS[s1], "s2": c15.DIMS[s2], "probes": pj,
+                rows.append({"id": rid, "kind": "nest", **rowcats(d1, d2), "s1": c15.DIMS[s1], "s2": c15.DIMS[s2], "probes": pj,
                              "build": "ok", "vec": v, "desc": f"{desc} via {rn}"})
                 if not (before == v == after):
                     direct.append((f"{desc} via {rn}", before, v, after))
@@ -130,7 +151,7 @@ def main(tier):
             raise MachineryFailure("child process produced no vectors:\n" + p.stderr[-800:])
         vecs = json.loads(line[0][5:])
         for (desc, d1, d2, s1, s2, before, rn), v in zip(xmeta, vecs):
-            rows.append({"id": rid, "kind": "nest", "d1": d1, "d2": d2, "s1": c15.DIMS[s1], "s2": c15.DIMS[s2], "probes": pj,
+            rows.append({"id": rid, "kind": "nest", **rowcats(d1, d2), "s1": c15.DIMS[s1], "s2": c15.DIMS[s2], "probes": pj,
                          "build": "ok", "vec": v, "desc": f"{desc} via other-process {rn}"})
             if v != before:
                 direct.append((f"{desc} via other-process {rn}", before, v, before))
@@ -159,7 +180,8 @@ def main(tier):
                            "categories differ" % (len(anns), "all" if tier == "thorough" else "250 sampled"))
         chk.sample({"annotation": anns[-1][0], "routes": list(routes) + ["other-process pickle", "other-process cloudpickle"]})
         chk.assumptions += ["meaning compared through 45 (dtype, shape) probes",
-                            "user categories importable by name are exercised through the union/flat routes of the exported classes only"]
+                            "user categories (harness.user_cats: names, prefix and exact patterns) are nested only with Shaped or "
+                            "themselves"]
     except MachineryFailure as e:
         shutil.rmtree(tmp, ignore_errors=True)
         return chk.abort(str(e))
